@@ -16,7 +16,10 @@ func init() {
 				"C12.check (CheckBlock returns nil only under peer-set-hash equality and count > TrustCount; the counter is incremented only for members whose signature verifies against this block), " +
 				"C12.distinct (one signer, one vote: the counter iterates the trusted set or is guarded by a seen-set keyed by the canonical identity), C12.app (the application is restored only after core.fastForward accepted). " +
 				"NOT decided: that every single-field tampering is refused as a statement over values (collision resistance of SHA-256 plus the two equalities)."},
-		Rules: []ruleFunc{c12accept, c12check, c12app},
+		Rules: []ruleFunc{c12accept, c12check, c12app, func(p *Prog, r *Report) {
+			r.Rule("C12.verify", 1, "Block.Verify returns true only through keys.Verify over Body.Hash() with the signer's key and this signature")
+			verifyProvenance(p, r, "C12.verify", []string{"Block"})
+		}},
 	})
 	register(&propDef{
 		ID: "C14", NeedCG: true,
